@@ -1127,6 +1127,29 @@ def simplify_call(term, c, t):
             else:
                 break
         return ('poll', fut, term[3])
+    # std conversions applied to a value whose variant is already known on this path (after `.filter(..)`, a match arm
+    # that built Some/None, ...): compute the result instead of forking on it later
+    last = path.split('::')[-1]
+    if args and isinstance(args[0], tuple) and args[0] and args[0][0] == 'agg' and isinstance(args[0][1], str):
+        a0 = args[0]
+        if a0[1] in ('std::option::Option::Some', 'std::option::Option::None'):
+            some = a0[1].endswith('Some')
+            x = a0[2].get('0') if some else None
+            if last == 'ok_or' and len(args) == 2 and path.startswith('std::option::Option'):
+                return ('agg', 'std::result::Result::Ok', FrozenDict((('0', x),)), 0) if some else ('agg', 'std::result::Result::Err', FrozenDict((('0', args[1]),)), 1)
+            if last in ('is_some', 'is_none') and path.startswith('std::option::Option'):
+                return ('int', int(some == (last == 'is_some')), None)
+            if c['path'].endswith('Try::branch'):
+                return ('agg', 'std::ops::ControlFlow::Continue', FrozenDict((('0', x),)), 0) if some else ('agg', 'std::ops::ControlFlow::Break', FrozenDict((('0', a0),)), 1)
+        if a0[1] in ('std::result::Result::Ok', 'std::result::Result::Err'):
+            okv = a0[1].endswith('Ok')
+            x = a0[2].get('0')
+            if last in ('is_ok', 'is_err') and path.startswith('std::result::Result'):
+                return ('int', int(okv == (last == 'is_ok')), None)
+            if last == 'ok' and path.startswith('std::result::Result') and len(args) == 1:
+                return ('agg', 'std::option::Option::Some', FrozenDict((('0', x),)), 1) if okv else ('agg', 'std::option::Option::None', FrozenDict(()), 0)
+            if c['path'].endswith('Try::branch'):
+                return ('agg', 'std::ops::ControlFlow::Continue', FrozenDict((('0', x),)), 0) if okv else ('agg', 'std::ops::ControlFlow::Break', FrozenDict((('0', a0),)), 1)
     return term
 
 
